@@ -17,7 +17,7 @@ RULE = (
     "while handling another) is injected at EVERY statement position of every level (before the call, after the call), "
     "and the chain is entered from EVERY kind of user-code entry point {service function, event / state / time-startup "
     "trigger function, state-trigger expression, @state_active expression, event filter expression, task.create body, "
-    "done callback, load time} in both subsystems. Oracle: (1) exactly one ERROR record, on the script's own logger "
+    "done callback (followed by a second callback on the same task, which must still run), task.wait_until trigger expression, load time} in both subsystems. Oracle: (1) exactly one ERROR record, on the script's own logger "
     "(custom_components.pyscript.<context>[.<function>]), carrying the exception type and message; (2) the (file, function, "
     "line) triples of its script frames equal those of CPython's traceback for the same source run natively; (3) "
     "containment: the loop's exception handler saw nothing, the service call did not raise into Home Assistant, a second "
@@ -47,7 +47,7 @@ FAULTS = [
     ("context", "try:\n    junk = 1 / 0\nexcept ZeroDivisionError:\n    raise RuntimeError('while-handling')", "RuntimeError", "while-handling"),
 ]
 FORMS = ["plain", "multiline", "method", "comp", "decorated", "module"]
-ENTRIES = ["service", "event", "state", "startup", "state_expr", "active_expr", "event_filter", "task", "callback", "load"]
+ENTRIES = ["service", "event", "state", "startup", "state_expr", "active_expr", "event_filter", "task", "callback", "wait_expr", "load"]
 
 HELPER = '''
 def hcall(fn, x):
@@ -146,7 +146,13 @@ def build(chain_forms, fault_level, fault_slot, fault_stmt, entry, pyscript):
         src += "def body(x):\n    marks.append(('run', x))\n    f1(x)\n    marks.append(('done', x))\n@service\ndef entry(x=0):\n    t = task.create(body, x)\n    task.wait({t})\n"
     elif entry == "callback":
         src += ("def cb(x):\n    marks.append(('run', x))\n    f1(x)\n    marks.append(('done', x))\ndef quick():\n    return 1\n"
-                "@service\ndef entry(x=0):\n    t = task.create(quick)\n    task.add_done_callback(t, cb, x)\n    task.wait({t})\n    task.sleep(0)\n")
+                "def cb2(x):\n    marks.append(('cb2', x))\n"
+                "@service\ndef entry(x=0):\n    t = task.create(quick)\n    task.add_done_callback(t, cb, x)\n    task.add_done_callback(t, cb2, x)\n"
+                "    task.wait({t})\n    task.sleep(0)\n")
+    elif entry == "wait_expr":
+        src += ("@service\ndef entry(x=0):\n    marks.append(('run', x))\n"
+                "    r = task.wait_until(state_trigger='f1(int(pyscript.go)) >= 0', timeout=5)\n"
+                "    marks.append(('done', int(pyscript.go)))\n")
     return src
 
 
@@ -171,7 +177,7 @@ def reference_frames(src, helper_path, script_path, entry):
                     g["body"](0)
                 elif entry == "callback":
                     g["cb"](0)
-                elif entry in ("state_expr", "active_expr", "event_filter"):
+                elif entry in ("state_expr", "active_expr", "event_filter", "wait_expr"):
                     g["f1"](0)
                 elif entry == "state":
                     g["entry"](value="0")
@@ -215,6 +221,18 @@ def run_case(case, legacy):
             try:
                 if entry in ("service", "task", "callback"):
                     w.call_service("pyscript", "entry", {"x": x})
+                elif entry == "wait_expr":
+                    w.hass.states.async_set("pyscript.go", "-1")  # the expression is false at the call: the function waits
+                    w.settle()
+                    t = w.start_service("pyscript", "entry", {"x": x})
+                    w.settle()
+                    w.hass.states.async_set("pyscript.go", str(x), {"n": len(w.logs.records)})
+                    w.settle()
+                    w.advance(6)
+                    if not t.done():
+                        raised_into_ha = "service call never returned"
+                    elif t.exception() is not None:
+                        raised_into_ha = repr(t.exception())[:200]
                 elif entry in ("event", "startup", "event_filter"):
                     w.fire("ev_go", {"x": x})
                 elif entry in ("state", "state_expr"):
@@ -266,8 +284,11 @@ def run_case(case, legacy):
         # expression snippets (decorator arguments) are reported as line 1 of a pseudo function: drop frames that are not script functions
         got = [g for g in got if SCRIPT_FUNCS.match(g[1])]
         want = [f for f in ref_frames if SCRIPT_FUNCS.match(f[1])]
-        if entry == "load":
-            want = [f for f in want]
+        if entry == "wait_expr":
+            # the exception surfaces in the waiting function at its task.wait_until() line; the expression snippet is line 1 of a pseudo frame
+            wl = [i + 1 for i, ln in enumerate(src_ps.split("\n")) if "task.wait_until(" in ln][0]
+            want = [("hello.py", "entry", wl)] + want
+            got = [g for g in got if g != ("hello.py", "entry", 1)]
         if got != want:
             kind = "traceback-frames"
             if got == [f for f in want if f[1] != "inner"]:
@@ -290,6 +311,8 @@ def run_case(case, legacy):
             marks = list(w.g()["marks"])
             if ("done", 1) not in marks:
                 return {"kind": "trigger-dead-after-fault", "observed": marks}, obs
+            if entry == "callback" and (("cb2", 0) not in marks or ("cb2", 1) not in marks):
+                return {"kind": "later-done-callback-skipped", "observed": marks}, obs
         w.fire("ev_other", {})
         w.settle()
         if w.g("file.other") is None or "other-ran" not in w.g("file.other")["omarks"]:
